@@ -30,6 +30,11 @@ def mk_cfg(ctx, variant="main"):
         # action is delivered to the right incarnation or refused
         return pm.Cfg(seed=ctx.seed, slots=("A",), max_objs=1, actions=("kill",), clock=True, queries=(), numeric=True,
                       use_iter=False, use_exit=False, sys_calls=pm.SYS_CALLS[:1])
+    if variant == "midact":
+        # inside ONE action: the process dies before kernel access k1 and its pid is re-used before access k2 > k1; once psutil has
+        # looked at the ownerless pid in between, nothing may be delivered to the newcomer
+        return pm.Cfg(seed=ctx.seed, slots=("A",), max_objs=1, actions=("affall", "kill", "nice5", "aff0", "rlimit", "ionice"), clock=False, queries=(),
+                      numeric=False, use_iter=False, use_exit=False, midact=8)
     if variant == "iterfault":
         # objects handed out by process_iter() (held by the caller), one-shot resource failure of the identity probe
         return pm.Cfg(seed=ctx.seed, slots=("A",), max_objs=2, actions=acts[:3], clock=False, queries=("name",), numeric=False,
@@ -79,6 +84,23 @@ def static_cases(seed):
         for a in pm.ACTIONS:
             n += 1
             outcome(pm.do_action, psutil, p0, a)
+    # a kernel without prlimit(2) (ENOSYS): whatever rlimit() answers, nothing may be set on any OTHER process -- the caller included
+    w2 = World()
+    w2.spawn(1, ppid=0, comm=b"init", start=1)
+    w2.spawn(w2.mypid, ppid=1, comm=b"caller", start=50)
+    w2.spawn(4242, ppid=1, comm=b"target", start=60)
+    w2.prlimit_enosys = True
+    use_world(w2)
+    n += 2
+    tgt = outcome(psutil.Process, 4242)
+    if tgt[0] == "ok":
+        for args in ((psutil.RLIMIT_NOFILE, (7, 9)), (psutil.RLIMIT_NOFILE,)):
+            outcome(tgt[1].rlimit, *args)
+        for e in w2.effects:
+            if e[1] != 4242:
+                viols.append({"cause": "wrong-pid", "msg": "rlimit() on pid 4242 under a kernel without prlimit(2) delivered %r" % (e,),
+                              "case": {"static": ["enosys"]}})
+    use_world(w)
     for e in w.effects:
         if e[1] <= 0 and e[0] == "kill":
             viols.append({"cause": "group-signal", "msg": "delivered %r" % (e,), "case": {"static": ["pid0-actions"]}})
@@ -101,7 +123,7 @@ def run(ctx):
     extra = {}
     extra_viols = []
     for variant, d in (("popen", 7 if ctx.thorough else 6), ("ownpid", 7 if ctx.thorough else 6), ("iterfault", 8 if ctx.thorough else 7),
-                       ("clock", 9 if ctx.thorough else 8)):
+                       ("clock", 9 if ctx.thorough else 8), ("midact", 4 if ctx.thorough else 3)):
         if ctx.alt:
             continue          # (second pass with procfs mounted elsewhere: the main variant, two events shorter)
         _CFG = mk_cfg(ctx, variant)
